@@ -10,7 +10,11 @@ struct GCase {
   int wide = 0;    // destination rgba_float instead of a8r8g8b8
   int w = 8, h = 1, sx = 0, sy = 0;
   int over = 0;    // composite with OVER onto a random destination instead of SRC
+  int masked = 0;  // through an a8 mask with runs of 0x00 / 0xff (pixels under other mask values are not asserted)
+  uint64_t mseed = 0;
   template <class A> void io(A &a) {
+    a.f("masked", masked);
+    a.f("mseed", mseed);
     a.f("g", g);
     a.f("wide", wide);
     a.f("over", over);
@@ -69,10 +73,16 @@ static SImg gen_gradient(bool sane) {
     g.geom = {gcoord(30), gcoord(6), R(0, 360) * 65536 + (coin(50) ? 0 : R(0, 65535))};
     if (coin(20)) g.geom = {((int64_t)R(0, 20) << 16) + 32768, ((int64_t)R(0, 2) << 16) + 32768, g.geom[2]};  // centre on a pixel centre
   }
-  int tk = pickw({5, 2, 2, 1, sane ? 0 : 1});
+  int tk = pickw({5, 2, 2, 1, sane ? 0 : 1, 1});
   if (tk) {
     g.has_transform = 1;
-    if (tk == 1) g.m = gen_transform(2, 20, 20);
+    if (tk == 5) {
+      // "keystone" matrices: scale + translation with one non-zero entry in the projective row, so that w varies along
+      // the rows only (or along the columns only)
+      int64_t a = coin(50) ? 65536 : R(20000, 200000);
+      g.m = {a, 0, R(-8, 8) * 65536, 0, coin(50) ? a : R(20000, 200000), R(-8, 8) * 65536, 0, 0, 65536};
+      g.m[coin(60) ? 7 : 6] = (coin(50) ? 1 : -1) * R(100, 3000);
+    } else if (tk == 1) g.m = gen_transform(2, 20, 20);
     else if (tk == 2) g.m = gen_transform(4, 20, 20);
     else if (tk == 3) g.m = gen_transform(5, 20, 20);
     else g.m = {0, 0, 0, 0, 0, 0, 0, 0, coin(50) ? 0 : 65536};  // singular
@@ -88,6 +98,12 @@ static GCase gen_case() {
   c.sx = (int)R(-5, 20);
   c.sy = (int)R(-3, 6);
   c.over = coin(30);
+  if (coin(20)) {
+    c.masked = 1;
+    c.mseed = seed64();
+    c.h = (int)R(1, 6);
+  }
+  if (coin(25)) c.h = (int)R(2, 8);
   SImg &g = c.g;
   switch (pickw({82, 6, 6, 6})) {
   case 1: {
@@ -281,7 +297,14 @@ static Verdict run_case(const GCase &c) {
         o[0] = p >> 24, o[1] = (p >> 16) & 0xff, o[2] = (p >> 8) & 0xff, o[3] = p & 0xff;
       }
     }
-  pixman_image_composite32(c.over ? PIXMAN_OP_OVER : PIXMAN_OP_SRC, src.im, nullptr, dst->im, c.sx, c.sy, 0, 0, 0, 0, c.w, c.h);
+  std::unique_ptr<Image> mask;
+  if (c.masked) {
+    Bits mb = gen_bits_fixed(fmt_index(PIXMAN_a8), c.w, c.h, c.mseed);
+    mb.fill = FILL_RUNS;
+    mask = make_image(mb);
+    v.label("a8_mask_with_runs");
+  }
+  pixman_image_composite32(c.over ? PIXMAN_OP_OVER : PIXMAN_OP_SRC, src.im, mask ? mask->im : nullptr, dst->im, c.sx, c.sy, 0, 0, 0, 0, c.w, c.h);
   if (c.over) v.label("op_over");
   // transform (real arithmetic on the exact fixed-point entries)
   real m[9] = {1, 0, 0, 0, 1, 0, 0, 0, 1};
@@ -378,6 +401,22 @@ static Verdict run_case(const GCase &c) {
         gv[3] = got & 0xff;
       }
       const real *bf = &before[((size_t)y * c.w + x) * 4];
+      if (mask) {
+        uint32_t mv = raw_get(mask->rowp(y), 8, x);
+        if (mv == 0) {
+          // masked out: SRC writes transparent black, OVER leaves the destination alone
+          for (int k = 0; k < 4; k++) {
+            real want = c.over ? bf[k] : 0;
+            if (fabsl(gv[k] - want) > 1e-3L) v.fail(fmt("pixel (%d,%d) is masked out but channel %d is %.3Lf (expected %.3Lf)", x, y, k, gv[k], want));
+          }
+          checked++;
+          continue;
+        }
+        if (mv != 0xff) {
+          skipped++;  // partial mask values: a second rounding the statement says nothing about
+          continue;
+        }
+      }
       if (none_valid) {
         // no admissible t: transparent (SRC), i.e. the destination is left exactly as it was (OVER)
         for (int k = 0; k < 4; k++) {
